@@ -466,6 +466,26 @@ func oracleC07(c Case, out graph.Layout) []string {
 	if !reflect.DeepEqual(edges, c.Edges) {
 		v = append(v, "the caller's edge list was modified")
 	}
+	// the same edge list as windows of ONE flat slice (what strings.Fields + slicing gives a caller): a row then has spare
+	// capacity that belongs to the rows after it, so an append to a row writes into the caller's data
+	flat := make([]string, 0, 2*len(c.Edges)+4)
+	for _, e := range c.Edges {
+		flat = append(flat, e...)
+	}
+	flat = append(flat, "<spare>", "<spare>")
+	flatBefore := append([]string(nil), flat...)
+	rows := make([][]string, len(c.Edges))
+	at := 0
+	for i, e := range c.Edges {
+		rows[i] = flat[at : at+len(e)] // capacity reaches to the end of flat
+		at += len(e)
+	}
+	if o := autog.Layout(graph.EdgeSlice(rows), opts...); !reflect.DeepEqual(first, o) {
+		v = append(v, "edge rows that share one backing array give a different layout: "+diffLayouts(first, o))
+	}
+	if !reflect.DeepEqual(flat, flatBefore) {
+		v = append(v, fmt.Sprintf("the caller's edge data was modified (rows sharing one backing array): %v", flat))
+	}
 	if !reflect.DeepEqual(sizes, sizesBefore) {
 		v = append(v, "the caller's size map was modified")
 	}
